@@ -50,6 +50,9 @@ struct Plan {
     /// allow frames of a fragmented message to be interleaved with what follows
     #[serde(default)]
     interleave: bool,
+    /// pass-through mode only: read through Connection::receive_message_from_read_half (the node's path)
+    #[serde(default)]
+    read_half: bool,
     #[serde(default)]
     salt: u64,
 }
@@ -63,7 +66,7 @@ impl Scenario for C06 {
 
     fn runs(&self, tier: Tier) -> u64 {
         match tier {
-            Tier::Quick => 10_000,
+            Tier::Quick => 80_000,
             Tier::Thorough => 4_000_000,
         }
     }
@@ -102,7 +105,7 @@ impl Scenario for C06 {
                 gap_ms: *r.pick(&[0u32, 0, 0, 1, 30]),
             });
         }
-        let p = Plan { header_mode, client: end(r), server: end(r), cap: *r.pick(&[0u32, 0, 4096]), items, interleave: r.chance(1, 2), salt: r.next_u64() };
+        let p = Plan { header_mode, client: end(r), server: end(r), cap: *r.pick(&[0u32, 0, 4096]), items, interleave: r.chance(1, 2), read_half: !header_mode && r.chance(1, 3), salt: r.next_u64() };
         serde_json::to_value(p).unwrap()
     }
 
@@ -127,7 +130,7 @@ impl Scenario for C06 {
             components_stubbed: &["TCP (SimNet)", "EPMD (stub)", "remote node (conforming sender model with an independent encoder)"],
             assumptions: &["junk frames never touch atom-cache slots the sender model uses (reserved segment 7) and use sequence ids disjoint from valid fragments", "fragmented messages use header entries in reserved segment 6 so that the known fragment defect cannot cascade into later messages"],
             fault_prefixes: &["fault.", "net."],
-            expected_probes: &["probe.c06.ok_passthrough", "probe.c06.ok_header", "probe.c06.tick_skipped", "probe.c06.junk_rejected", "probe.c06.message_after_junk_intact", "probe.c06.fragmented_sent"],
+            expected_probes: &["probe.c06.ok_passthrough", "probe.c06.ok_header", "probe.c06.tick_skipped", "probe.c06.junk_rejected", "probe.c06.message_after_junk_intact", "probe.c06.fragmented_sent", "probe.c06.read_half_api"],
         }
     }
 }
@@ -371,7 +374,24 @@ async fn scenario(w: &Arc<World>, p: &Plan) {
         }
         tokio::time::sleep(Duration::from_millis(1)).await;
     };
-    let results = receive_all(&mut conn, n + 1).await;
+    let results = if p.read_half && !p.header_mode {
+        w.stat("probe.c06.read_half_api");
+        let Some(mut half) = conn.take_read_half() else {
+            w.violation("HARNESS-setup", "take_read_half returned None on a connected connection".to_string());
+            return;
+        };
+        let mut out: Vec<Got> = Vec::new();
+        for _ in 0..n + 1 {
+            let r = Connection::receive_message_from_read_half(&mut half, Duration::from_secs(3600)).await;
+            out.push(match r {
+                Ok((c, pl)) => Ok((to_val(&c.to_term()), pl.as_ref().map(to_val))),
+                Err(e) => Err(e.to_string()),
+            });
+        }
+        out
+    } else {
+        receive_all(&mut conn, n + 1).await
+    };
     for (i, r) in results.iter().enumerate() {
         w.ev(format!("recv {} -> {}", i, match r {
             Ok((c, _)) => format!("Ok {}", c.short()),
